@@ -1,4 +1,5 @@
 pub mod c02;
+pub mod c03;
 pub mod c07;
 pub mod cfgrammar;
 pub mod c08;
@@ -13,6 +14,7 @@ use serde_json::Value;
 pub fn run(prop: &str, tier: Tier, replay: Option<Value>) -> ! {
     match prop {
         "C02" => c02::run(tier, replay),
+        "C03" => c03::run(tier, replay),
         "C07" => c07::run(tier, replay),
         "C08" => c08::run(tier, replay),
         "C19" => c19::run(tier, replay),
